@@ -85,6 +85,15 @@ func encoderRegions(fn *ssa.Function) []region {
 				out = append(out, region{start: base, at: c.Pos()})
 			}
 		case "append":
+			// append(buf, X...) where buf was built by appends of known length: X starts at that length
+			if len(variadicElems(c.Call.Args[1])) == 0 && isByteSlice(c.Type()) {
+				if base := appendOffset(c.Call.Args[0]); base >= 0 {
+					if _, isAlloc := strip(c.Call.Args[0]).(*ssa.Slice); !isAlloc {
+						out = append(out, region{start: posExpr{Off: base, OK: true}, at: c.Pos()})
+						continue
+					}
+				}
+			}
 			// append(lit, X...) where lit is a slice of a fixed-size array literal
 			if s, ok := strip(c.Call.Args[0]).(*ssa.Slice); ok {
 				if a, ok := s.X.(*ssa.Alloc); ok {
@@ -285,14 +294,14 @@ func checkC13(c *Ctx) {
 	if m == nil {
 		return
 	}
-	c.Rule("C13.B1", "ack codec: lane agreement newRBCEncoding ↔ rbcEncoding.Ack", 4)
-	c.Rule("C13.B2", "synchroniser codec: lane agreement encode/decodeTagAndMembershipList", 4)
+	c.Rule("C13.B1", "ack codec: lane agreement newRBCEncoding ↔ rbcEncoding.Ack", 2)
+	c.Rule("C13.B2", "synchroniser codec: lane agreement encode/decodeTagAndMembershipList", 2)
 	for _, cp := range codecPairs {
 		checkCodecPair(c, m, cp)
 	}
 	// B4: byte copies of the hand-written encoders copy all of their source
 	const B4 = "C13.B4"
-	c.Rule(B4, "byte copies in the encoders are complete (no silent truncation)", 3)
+	c.Rule(B4, "byte copies in the encoders are complete (no silent truncation)", 1)
 	for _, mp := range []struct{ mod, pkg string }{{ModRoot, PkgDisc}, {ModRoot, PkgThreshold}, {ModRoot, PkgRBC}, {ModBLS, PkgBLS}, {ModPS, PkgPS}} {
 		mm := c.Mod(mp.mod)
 		if mm == nil {
@@ -313,7 +322,7 @@ func checkC13(c *Ctx) {
 	}
 	// B3: lane completeness of id hashing
 	const B3 = "C13.B3"
-	c.Rule(B3, "id hashing feeds every byte of the identifier", 2)
+	c.Rule(B3, "id hashing feeds every byte of the identifier", 1)
 	for _, site := range []struct{ pkg, recv, fn string }{{PkgDisc, "", "makePRF"}, {PkgThreshold, "", "membershipSyncTopicName"}} {
 		fn := c.mustFunc(m, site.pkg, site.recv, site.fn)
 		if fn == nil {
@@ -338,10 +347,16 @@ func checkC13(c *Ctx) {
 				lanesBySrc := map[ssa.Value]map[int]bool{}
 				for _, w := range encoderWrites(f) {
 					if w.Buf == ssa.Value(arr) && w.Lane.Kind == laneSrc {
-						if lanesBySrc[w.Lane.Src] == nil {
-							lanesBySrc[w.Lane.Src] = map[int]bool{}
+						src := w.Lane.Src
+						for k := range lanesBySrc {
+							if k != src && sameValue(k, src) {
+								src = k // the identifier read twice (ids[i] … ids[i]>>8)
+							}
 						}
-						lanesBySrc[w.Lane.Src][w.Lane.K] = true
+						if lanesBySrc[src] == nil {
+							lanesBySrc[src] = map[int]bool{}
+						}
+						lanesBySrc[src][w.Lane.K] = true
 					}
 				}
 				for s, ks := range lanesBySrc {
@@ -366,7 +381,7 @@ func checkC13(c *Ctx) {
 	}
 	// T1: ASN.1 type pairs
 	const T1 = "C13.T1"
-	c.Rule(T1, "asn1.Unmarshal target type = asn1.Marshal source type for stored data / public parameters; id fields ≥16 bits", 4)
+	c.Rule(T1, "asn1.Unmarshal target type = asn1.Marshal source type for stored data / public parameters; id fields ≥16 bits", 2)
 	for _, b := range []struct {
 		mod, pkg string
 		types    []string
